@@ -1,8 +1,9 @@
 """C17 — each strictness option changes exactly the check it names, nothing else."""
 from props.common_prog import judge_prog
 
-THEOREM_MODULES = ["Hcl.Theorems.C17", "Hcl.Tie.Ops", "Hcl.Tie.PinsCheck"]
-THEOREMS = {"Hcl.Tie.Ops": ["Tie.Ops.strictnessConsts", "Tie.Ops.defaultFeatures", "Tie.Ops.binopApplyText"], "Hcl.Theorems.C17": ["C17_accepted_same_program", "C17_accepted_same_run", "Program_new_flag", "Program_new_flag_run", "fixMux_flag", "checkFixEval_flag", "check_width_flag", "execAction_flag", "C17_eval_flag_independent"],
+THEOREM_MODULES = ["Hcl.Theorems.C17", "Hcl.Tie.Ops", "Hcl.Tie.PinsCheck", "Hcl.Theorems.C17Mono"]
+THEOREMS = {"Hcl.Theorems.C17Mono": ["C17_option_only_adds_checks", "C17_option_changes_exactly_its_check", "C17_accepted_monotone", "C17_strictest_and_laxest", "FlagMonoCex.m1_fails", "FlagMonoCex.m2_fails"],
+            "Hcl.Tie.Ops": ["Tie.Ops.strictnessConsts", "Tie.Ops.defaultFeatures", "Tie.Ops.binopApplyText"], "Hcl.Theorems.C17": ["C17_accepted_same_program", "C17_accepted_same_run", "Program_new_flag", "Program_new_flag_run", "fixMux_flag", "checkFixEval_flag", "check_width_flag", "execAction_flag", "C17_eval_flag_independent"],
             "Hcl.Tie.PinsCheck": ["Tie.PinsCheck.pinGetWidthAndCheck", "Tie.PinsCheck.pinFixMuxWidths", "Tie.PinsCheck.pinEvaluate"]}
 
 RULE = ("S-FEATURES: the harness (and with it hclrs) is rebuilt per strictness feature set (quick: default, none, all, "
